@@ -145,7 +145,12 @@ func c40Worker(o *c40Obs, prog string, idx int) {
 	}
 }
 
-func c40Body(t testing.TB, sc c40Scenario) (func(), *c40Obs) {
+func c40Body(t testing.TB, sc c40Scenario) (func(), *c40Obs) { return c40BodyN(t, sc, 1) }
+
+// c40BodyN: loops > 1 is the overlap-seeking variant of the free-running pass: every worker repeats its call
+// and the signaling goroutine creates (and drops) offers before the exchange, so that the calls really run at
+// the same time (a race the detector can only see when no lock hand-over happens to order the two accesses).
+func c40BodyN(t testing.TB, sc c40Scenario, loops int) (func(), *c40Obs) {
 	o := &c40Obs{}
 
 	return func() {
@@ -168,6 +173,11 @@ func c40Body(t testing.TB, sc c40Scenario) (func(), *c40Obs) {
 		vsched.Quiesce()
 		vsched.SetBranching(true)
 		o.goT("signaling", func() {
+			for k := 1; k < loops; k++ {
+				if _, err := x.CreateOffer(nil); err != nil {
+					return
+				}
+			}
 			offer, err := x.CreateOffer(nil)
 			if err != nil {
 				return
@@ -177,8 +187,17 @@ func c40Body(t testing.TB, sc c40Scenario) (func(), *c40Obs) {
 			}
 			_ = x.SetRemoteDescription(SessionDescription{Type: SDPTypeAnswer, SDP: answer})
 		})
-		o.goT("w1-"+sc.W1, func() { c40Worker(o, sc.W1, 1) })
-		o.goT("w2-"+sc.W2, func() { c40Worker(o, sc.W2, 2) })
+		work := func(prog string, idx int) {
+			n := loops
+			if prog == "Close" {
+				n = 1
+			}
+			for k := 0; k < n; k++ {
+				c40Worker(o, prog, idx+10*k)
+			}
+		}
+		o.goT("w1-"+sc.W1, func() { work(sc.W1, 1) })
+		o.goT("w2-"+sc.W2, func() { work(sc.W2, 2) })
 		if vsched.Cur() != nil {
 			// controlled runs: once every call has returned the connection is closed, which cancels the
 			// pending ICE connect of the queued transport start (it would otherwise block for ever)
@@ -339,9 +358,9 @@ func TestVerifC40Race(t *testing.T) {
 	c := vkit.New("C40", "exploration")
 	defer c.Finish(t)
 	scs := c40Scenarios(c.Quick())
-	reps := c.Pick(3, 12)
-	c.Rule(fmt.Sprintf("free-running -race pass: each of the %d C40 scenarios (same harness bodies as the controlled part, plain build, real goroutines) is executed %d times in a child process; every DATA RACE report of the Go race detector whose stacks contain pion/webrtc frames is a violation keyed by the pair of top pion/webrtc functions; distinct = scenarios executed", len(scs), reps))
-	c.Assume("the race detector reports conflicting accesses that are unordered by happens-before in an execution; which accesses execute is decided by the scenario, not by timing, so a few repetitions per scenario suffice for the calls made; schedules are NOT enumerated in this pass")
+	reps := c.Pick(5, 20)
+	c.Rule(fmt.Sprintf("free-running -race pass: each of the %d C40 scenarios (same harness bodies as the controlled part, plain build, real goroutines) is executed %d times in a child process, and %[2]d times more in an overlap-seeking variant (every worker repeats its call 20 times, the signaling goroutine creates 19 offers before the exchange); every DATA RACE report of the Go race detector whose stacks contain pion/webrtc frames is a violation keyed by the pair of top pion/webrtc functions; distinct = scenarios executed", len(scs), reps))
+	c.Assume("the race detector reports conflicting accesses that are unordered by happens-before in an execution; a lock both calls take one after the other orders them by accident, so a race shows only when the calls really overlap: this pass SAMPLES schedules (repetitions and the overlap-seeking variant raise the chance), it does not enumerate them")
 	c.Set("schedules_enumerated", false)
 	c.Set("repetitions", reps)
 	if _, ok := c.ReplayCase(); ok {
@@ -417,8 +436,13 @@ func c40RaceChild(t *testing.T, sel string) {
 	vsched.ICEMode.Store(vsched.ICEBlock)
 	reps := 3
 	fmt.Sscanf(os.Getenv("VERIF_C40_REPS"), "%d", &reps)
-	for i := 0; i < reps; i++ {
-		body, o := c40Body(t, sc)
+	for i := 0; i < 2*reps; i++ {
+		// first the scenario as explored under the controlled scheduler, then its overlap-seeking variant
+		loops := 1
+		if i >= reps {
+			loops = 20
+		}
+		body, o := c40BodyN(t, sc, loops)
 		body()
 		deadline := time.Now().Add(120 * time.Second)
 		for atomic.LoadInt32(&o.live) > 0 {
